@@ -15,6 +15,37 @@
 (* the candidate's size, every other label is a wrong proof (materialized  *)
 (* by the harness from a catalogue: for other sizes, from the other fork,  *)
 (* truncated, padded, random).                                             *)
+(*                                                                         *)
+(* Log identity.  A log IS its 32-byte id (SHA-256 of its key); the        *)
+(* property speaks of "the successive STHs it holds for a log", so `held`  *)
+(* and `cos` are indexed by that identity, whatever string a request used  *)
+(* to spell it.  A request names a log by (log, spelling): "canon" is the  *)
+(* base64 string the witness was configured with, every member of Aliases  *)
+(* is another string that a lenient reader would take for the same 32      *)
+(* bytes (unused trailing bits set, embedded CR/LF, missing padding,       *)
+(* URL-safe alphabet, trailing blank).  The property is silent about which *)
+(* spellings a witness must understand; the code under test has a definite *)
+(* behaviour, stated as the named clause AliasIsUnknown: only the          *)
+(* configured spelling names a known log.  What the property does demand   *)
+(* is that no spelling opens a second history for the same log             *)
+(* (OneHistoryPerLog).                                                     *)
+(*                                                                         *)
+(* Storage faults.  Every request carries a fault label: what the database *)
+(* does to this one request.                                               *)
+(*   "commit"  the COMMIT of the transaction fails (sqlite: another        *)
+(*             connection holds a SHARED lock on the file -> SQLITE_BUSY); *)
+(*             reads and the INSERT succeed                                *)
+(*   "write"   the INSERT fails (another connection holds RESERVED)        *)
+(*   "read"    every statement fails (another connection holds EXCLUSIVE)  *)
+(*   "ctx"     the caller's context is already cancelled: no transaction   *)
+(*             can be opened (Update only; reads take no context)          *)
+(* The property: whatever the fault, an STH is cosigned only if it is held *)
+(* afterwards; an update that cannot be stored is answered with an error,  *)
+(* cosigns nothing and leaves the stored STH unchanged                     *)
+(* (FaultedStoreRefused).  Named clause StorageErrorIsError for what the   *)
+(* property leaves open: a request that hits a failing statement is        *)
+(* answered with a plain error (no STH in the reply), also where a         *)
+(* fault-free run would have refused it with the held STH.                 *)
 (***************************************************************************)
 EXTENDS Naturals, Sequences, FiniteSets, TLC
 
@@ -23,7 +54,8 @@ CONSTANTS
   OtherLogs,   \* log ids it does not know
   MaxSize,     \* tree sizes 0..MaxSize
   ForkAt,      \* the fork shares leaves 1..ForkAt with the honest tree
-  Proofs       \* proof labels, "correct" is one of them
+  Proofs,      \* proof labels, "correct" is one of them
+  Aliases      \* spellings of a log id other than the configured one ("canon")
 
 None == [k |-> "none"]
 
@@ -45,6 +77,16 @@ STHs == [k : {"sth"}, fam : Fams, size : 0..MaxSize, ts : 1..2, signer : Signers
 Cands == {c \in STHs : ~(c.fam = "F" /\ c.size <= ForkAt)} \cup {Garbage}
 
 AllLogs == Logs \cup OtherLogs
+
+(* ---------- spellings of a log id, storage faults ---------- *)
+Spellings == {"canon"} \cup Aliases
+\* named clause AliasIsUnknown: only the configured string names a known log
+Configured(l, sp) == l \in Logs /\ sp = "canon"
+
+Faults == {"none", "commit", "write", "read", "ctx"}
+ReadOpFaults == Faults \ {"ctx"}          \* GetSTH / GetLogs take no context
+StoreFails(f) == f \in {"commit", "write"}
+ReadFails(f) == f = "read"
 
 (* ---------- what verification means ---------- *)
 \* a is (the head of) a tree that b's tree extends
@@ -69,19 +111,19 @@ ParsesFor(c, l) == /\ c # Garbage
 (* ---------- state ---------- *)
 VARIABLES
   held,   \* [Logs -> Cands \cup {None}] : the row of table sths for each known log
+  cos,    \* [Logs -> Cands \cup {None}] : the latest STH the witness has cosigned for each log
   hist,   \* the behaviour so far (history variable, for replay)
   last    \* the last step (history variable)
 
-vars == <<held, hist, last>>
+vars == <<held, cos, hist, last>>
 
 Reply(code, kind, sth) == [code |-> code, kind |-> kind, sth |-> sth]
 NoBody == Reply("x", "none", None)
 
-\* The decision structure of Witness.Update, one disjunct per return statement.
-UpdateResult(l, c, pf) ==
-  IF l \notin Logs THEN [reply |-> Reply("NotFound", "none", None), store |-> FALSE]
-  ELSE IF ~ParsesFor(c, l) THEN [reply |-> Reply("Other", "none", None), store |-> FALSE]
-  ELSE LET p == held[l] IN
+\* The decision structure of Witness.Update on a database without faults, one disjunct per
+\* return statement.
+Decide(l, c, pf) ==
+  LET p == held[l] IN
     IF p = None THEN [reply |-> Reply("OK", "cosigned", c), store |-> TRUE]        \* TOFU
     ELSE IF c.size < p.size THEN [reply |-> Reply("FailedPrecondition", "raw", p), store |-> FALSE]
     ELSE IF c.size = p.size THEN
@@ -91,42 +133,67 @@ UpdateResult(l, c, pf) ==
     ELSE IF VerifyCons(p, c, pf) THEN [reply |-> Reply("OK", "cosigned", c), store |-> TRUE]
     ELSE [reply |-> Reply("FailedPrecondition", "raw", p), store |-> FALSE]
 
-Step(op, l, c, pf, reply) ==
-  [op |-> op, log |-> l, cand |-> c, pf |-> pf, reply |-> reply, pre |-> held, post |-> held']
+Failed == [reply |-> Reply("Other", "none", None), store |-> FALSE]
 
-Update(l, c, pf) ==
-  LET r == UpdateResult(l, c, pf) IN
+\* ... and under storage fault f, for the log spelled (l, sp)
+UpdateResult(l, sp, c, pf, f) ==
+  IF ~Configured(l, sp) THEN [reply |-> Reply("NotFound", "none", None), store |-> FALSE]
+  ELSE IF ~ParsesFor(c, l) THEN Failed
+  ELSE IF f = "ctx" \/ ReadFails(f) THEN Failed            \* no transaction / the SELECT fails
+  ELSE LET r == Decide(l, c, pf) IN
+       IF r.store /\ StoreFails(f) THEN Failed             \* INSERT or COMMIT fails: nothing stored, nothing cosigned
+       ELSE r
+
+Step(op, l, sp, c, pf, f, reply) ==
+  [op |-> op, log |-> l, sp |-> sp, cand |-> c, pf |-> pf, fault |-> f, reply |-> reply, pre |-> held, post |-> held']
+
+Update(l, sp, c, pf, f) ==
+  LET r == UpdateResult(l, sp, c, pf, f) IN
   /\ held' = IF r.store THEN [held EXCEPT ![l] = c] ELSE held
-  /\ last' = Step("Update", l, c, pf, r.reply)
+  /\ cos' = IF r.reply.kind = "cosigned" THEN [cos EXCEPT ![l] = r.reply.sth] ELSE cos
+  /\ last' = Step("Update", l, sp, c, pf, f, r.reply)
   /\ hist' = Append(hist, last')
 
-GetSTH(l) ==
-  LET reply == IF l \in Logs /\ held[l] # None THEN Reply("OK", "cosigned", held[l])
-               ELSE Reply("NotFound", "none", None) IN
+GetSTHReply(l, sp, f) ==
+  IF ReadFails(f) THEN Reply("Other", "none", None)        \* the SELECT comes first, for every id
+  ELSE IF Configured(l, sp) /\ held[l] # None THEN Reply("OK", "cosigned", held[l])
+  ELSE Reply("NotFound", "none", None)
+
+GetSTH(l, sp, f) ==
+  LET reply == GetSTHReply(l, sp, f) IN
   /\ UNCHANGED held
-  /\ last' = [Step("GetSTH", l, None, "none", reply) EXCEPT !.post = held]
+  /\ cos' = IF reply.kind = "cosigned" THEN [cos EXCEPT ![l] = reply.sth] ELSE cos
+  /\ last' = [Step("GetSTH", l, sp, None, "none", f, reply) EXCEPT !.post = held]
   /\ hist' = Append(hist, last')
 
-GetLogs ==
-  /\ UNCHANGED held
-  /\ last' = [op |-> "GetLogs", log |-> "none", cand |-> None, pf |-> "none",
-              reply |-> [code |-> "OK", kind |-> "logs", sth |-> None,
-                         logs |-> {l \in Logs : held[l] # None}],
+GetLogs(f) ==
+  /\ UNCHANGED <<held, cos>>
+  /\ last' = [op |-> "GetLogs", log |-> "none", sp |-> "canon", cand |-> None, pf |-> "none", fault |-> f,
+              reply |-> IF ReadFails(f)
+                        THEN [code |-> "Other", kind |-> "none", sth |-> None, logs |-> {}]
+                        ELSE [code |-> "OK", kind |-> "logs", sth |-> None,
+                              logs |-> {l \in Logs : held[l] # None}],
               pre |-> held, post |-> held]
   /\ hist' = Append(hist, last')
 
 Init == /\ held = [l \in Logs |-> None]
+        /\ cos = [l \in Logs |-> None]
         /\ hist = <<>>
         /\ last = None
 
-NextUpdate == \E l \in AllLogs, c \in Cands, pf \in Proofs : Update(l, c, pf)
-NextRead == (\E l \in AllLogs : GetSTH(l)) \/ GetLogs
+NextUpdate == \E l \in AllLogs, sp \in Spellings, c \in Cands, pf \in Proofs, f \in Faults : Update(l, sp, c, pf, f)
+NextRead == (\E l \in AllLogs, sp \in Spellings, f \in ReadOpFaults : GetSTH(l, sp, f)) \/ \E f \in ReadOpFaults : GetLogs(f)
 Next == NextUpdate \/ NextRead
+
+\* the fault-free, configured-spelling fragment (the whole request space of the first version of this spec)
+PlainNext == \/ \E l \in AllLogs, c \in Cands, pf \in Proofs : Update(l, "canon", c, pf, "none")
+             \/ \E l \in AllLogs : GetSTH(l, "canon", "none")
+             \/ GetLogs("none")
 
 Spec == Init /\ [][Next]_vars
 
 (* ---------- the property (C19) ---------- *)
-TypeOK == \A l \in Logs : held[l] \in Cands \cup {None}
+TypeOK == \A l \in Logs : held[l] \in Cands \cup {None} /\ cos[l] \in Cands \cup {None}
 
 \* stores (and therefore cosigns) only STHs carrying a valid signature of the configured log
 OnlySigned == \A l \in Logs : held[l] # None => ParsesFor(held[l], l)
@@ -149,6 +216,42 @@ RefusedNoChange == [][(last'.op = "Update" /\ last'.reply.code # "OK") =>
 
 \* what is cosigned is what is held afterwards
 CosignedIsHeld == last # None /\ last.reply.kind = "cosigned" => last.reply.sth = last.post[last.log]
+
+\* ... in state form: whatever has been cosigned for a log is the STH held for it (never something that
+\* was not stored, never something older than what is stored)
+CosignedHeld == \A l \in Logs : cos[l] # None => cos[l] = held[l]
+
+\* the title of C19: the STHs cosigned for a log, in the order they were cosigned, never shrink and each is
+\* a genuine extension of the previous one - per log identity, whatever the spelling, whatever the faults
+CosignedForwardStep == \A l \in Logs :
+                    (cos[l] # None /\ cos'[l] # cos[l]) =>
+                       /\ cos'[l] # None
+                       /\ cos'[l].size >= cos[l].size
+                       /\ Extends(cos[l], cos'[l])
+                       /\ (cos'[l].size = cos[l].size =>
+                              Root(cos'[l].fam, cos'[l].size) = Root(cos[l].fam, cos[l].size))
+CosignedForward == [][CosignedForwardStep]_vars
+
+\* an update that would have been stored but whose INSERT / COMMIT fails (or that cannot read, or has no
+\* transaction): the reply is an error, nothing is cosigned, the stored STH is unchanged
+FaultedStoreRefused == [][(last'.op = "Update" /\ last'.fault # "none" /\ Configured(last'.log, last'.sp)
+                            /\ ParsesFor(last'.cand, last'.log) /\ Decide(last'.log, last'.cand, last'.pf).store) =>
+                              /\ last'.reply.code # "OK"
+                              /\ last'.reply.kind # "cosigned"
+                              /\ held' = held /\ cos' = cos]_vars
+
+\* named clause StorageErrorIsError: a failing statement is answered with a plain error
+StorageErrorIsError == [][(last'.fault \in {"read", "ctx"} /\ last'.op = "Update" /\ Configured(last'.log, last'.sp)) \/
+                          (last'.fault = "read" /\ last'.op # "Update")
+                             => last'.reply.code = "Other" /\ last'.reply.kind = "none" /\ held' = held]_vars
+
+\* a request that spells a log's id differently never opens a second history for that log: it is not
+\* cosigned and stores nothing (with AliasIsUnknown: it is answered NotFound, or Other when the database
+\* cannot be read)
+OneHistoryPerLog == [][last'.sp # "canon" =>
+                          /\ held' = held /\ cos' = cos
+                          /\ last'.reply.kind \notin {"cosigned", "raw"}
+                          /\ last'.reply.code \in {"NotFound", "Other"}]_vars
 
 \* an update of one log never touches another log's row
 Isolated == [][\A l \in Logs : (last'.op # "Update" \/ last'.log # l) => held'[l] = held[l]]_vars
